@@ -72,6 +72,8 @@ let handle line =
   match Stdlib.String.split_on_char ' ' (Stdlib.String.trim line) with
   | ["contains"; cs; v] -> res_bool (z_contains (clist cs) (z_of_int (int_of_string v)))
   | ["den"; cs; v] -> "OK " ^ string_of_bool (z_den (clist cs) (z_of_int (int_of_string v)))
+  | ["mem"; cs; v] -> "OK " ^ string_of_bool (z_mem (clist cs) (z_of_int (int_of_string v)))
+  | ["nonvacuous"; cs] -> "OK " ^ string_of_bool (z_nonvacuous (clist cs))
   | ["wf"; cs] -> "OK " ^ string_of_bool (z_wf_sorted (clist cs))
   | ["validate"; cs] -> res_bool (z_validate (clist cs))
   | ["sort"; cs] -> res_clist (z_sort (clist cs))
